@@ -23,6 +23,7 @@ META = {
     "assumptions": ["pure-Python predicate evaluator over exact field values is the reference", "datetime thresholds parsed by an independent integer-arithmetic parser"],
     "deciding": ["post:filter", "post:filter_spatial", "history:order/grouping/idempotence"],
 }
+META["added"] = 'Added: histories that leave filters set on the source, origin_time thresholds between two integer milliseconds, zero-valued attributes and thresholds, catalogs already bound to another region (constructor or earlier filter_spatial) before filter_spatial(region).'
 MANIFEST = {
     "technique": "runtime post-conditions with OLD snapshots on the real filter / filter_spatial (sub-sequence, bit-identical rows, source untouched when in_place=False, no shared memory) + pure-Python predicate reference + sequential history checker over permutations, groupings, re-application and mixed in_place histories",
     "level_text": "Every call of filter/filter_spatial in the workload is checked against OLD state (kept rows are a bit-identical sub-sequence; source untouched and unshared with in_place=False); kept ids are compared with a pure-Python predicate evaluator; for each case all permutations and all sequential groupings of up to 4 statements, re-application and in_place variants must give the same catalog; datetime statements must equal the origin-time statement of the same instant.",
